@@ -25,7 +25,8 @@
    sends (its set, the forged extras) interleaves anywhere, in particular before / after the genuine partial of the
    peer whose index it claims and before / after that peer's own start.  The operator only cancels a stalled ceremony. *)
 EXTENDS NodeSigs
-CONSTANTS MCCfgs, MaxForge
+CONSTANTS MCCfgs, MaxForge,
+          Combine     \* TRUE: forged extras in earlier phases combine with a later fault; FALSE: one fault per plan
 VARIABLES plan, forged       \* forged: receivers the extra message of the current phase went to
 mcvars == <<vars, plan, forged>>
 
@@ -48,7 +49,7 @@ Plans(c) ==
   IF c.f = 0 THEN {[p \in MsgPhases |-> HonestFlt]}
   ELSE {[p \in MsgPhases |-> IF p = "nsig" THEN HonestFlt ELSE s[p]] : s \in Soft(c)}
        \cup UNION {{[p \in MsgPhases |-> IF p = b THEN flt ELSE IF PhaseNo(p) < PhaseNo(b) THEN s[p] ELSE HonestFlt] :
-                      s \in Soft(c), flt \in Blocking(c, b)} : b \in MsgPhases}
+                      s \in (IF Combine THEN Soft(c) ELSE {[p \in ExPhases |-> HonestFlt]}), flt \in Blocking(c, b)} : b \in MsgPhases}
 
 OtherVal(v) == (v % cfg.V) + 1
 FParts(flt) ==
